@@ -587,7 +587,7 @@ func (g *gen) callUser(f variable, depth int) string {
 
 // ----------------------------------------------------------------- statements
 
-var textBits = []string{"hello", " ", "\n", "<p>", "</p>", "&amp;", "a < b", "\"q\"", "it's", "é", "\n\n", "x", "\t", " 100 ", "<br/>", "\r\n", "=", "{", "}", "# not a comment", "%", "$"}
+var textBits = []string{"hello", " ", "\n", "<p>", "</p>", "&amp;", "a < b", "\"q\"", "it's", "é", "\n\n", "x", "\t", " 100 ", "<br/>", "\r\n", "=", "{", "}", "# not a comment", "%", "$", "\f", "😀", "日本", "<", "<<", "< %", "\n\n\n"}
 
 func (g *gen) text() {
 	n := g.size("ntext", 0, 4)
@@ -733,7 +733,9 @@ func (g *gen) piece(depth int) {
 			g.partialPiece(depth)
 		}
 	case 18:
-		if g.o.noise {
+		if g.pct("bigpiece", 20) {
+			g.bigPiece()
+		} else if g.o.noise {
 			g.noisePiece()
 		} else {
 			g.tag("<%=", g.expr(kStr, 1, "output"), "%>")
@@ -1189,6 +1191,54 @@ func (g *gen) partialPiece(depth int) {
 		sub(layout, true)
 	}
 	g.cur, g.scope, g.pending, g.inFor, g.inFn, g.late = saveCur, saveScope, savePending, saveFor, saveFn, saveLate
+}
+
+// bigPiece: sizes beyond the usual — long loops, long output, many lines,
+// wide literals — for code paths that switch behaviour at a threshold.
+func (g *gen) bigPiece() {
+	g.feat("big")
+	switch g.intn("big", 0, 5) {
+	case 0: // many iterations, long output
+		v := g.fresh("e")
+		g.frames = 0
+		g.tag("<%=", "for ("+v+") in range(1, "+fmt.Sprint([]int{9, 17, 33, 70, 130}[g.intn("bign", 0, 4)])+") {", "%>")
+		g.cur.write("item-")
+		g.tag("<%=", v+" + "+g.operand(kInt, 1, "infix-right:+"), "%>")
+		g.cur.write(";")
+		g.tag("<%", "}", "%>")
+	case 1: // > 4 KB of literal text on one line, then more lines
+		g.cur.write(strings.Repeat("lorem ipsum ", []int{40, 400, 800}[g.intn("bigt", 0, 2)]) + "\n")
+	case 2: // line numbers beyond 128 / 256 / 1000
+		if g.o.noise {
+			g.cur.write(strings.Repeat("\n", []int{3, 70, 130, 260, 1005}[g.intn("bigl", 0, 4)]))
+		} else {
+			g.cur.write("\n\n\n")
+		}
+	case 3: // wide array literal
+		n := []int{5, 9, 17, 33}[g.intn("biga", 0, 3)]
+		var parts []string
+		for i := 0; i < n; i++ {
+			parts = append(parts, g.maybeProbe(fmt.Sprint(i), kInt, "array-element", false))
+		}
+		g.frames = 0
+		g.tag("<%=", "len(["+strings.Join(parts, ", ")+"])", "%>")
+	case 4: // wide hash literal
+		n := []int{5, 9, 17}[g.intn("bigh", 0, 2)]
+		var parts []string
+		for i := 0; i < n; i++ {
+			parts = append(parts, fmt.Sprintf("%q: %s", fmt.Sprintf("k%02d", i), g.maybeProbe(fmt.Sprint(i), kInt, "hash-value", false)))
+		}
+		g.frames = 0
+		g.tag("<%=", "toJSON({"+strings.Join(parts, ", ")+"})", "%>")
+	default: // many small statements
+		n := []int{12, 40, 90}[g.intn("bigs", 0, 2)]
+		for i := 0; i < n; i++ {
+			g.tag("<%=", fmt.Sprint(i%10), "%>")
+			if i%7 == 6 {
+				g.cur.write("\n")
+			}
+		}
+	}
 }
 
 // noisePiece: material that moves line numbers but contains no probes.
